@@ -460,6 +460,8 @@ def main(argv=None):
     known_active = {k["key"]: k for k in known if k["status"] == "known"}
     subs = {s.name: s for s in mod.SUBS}
 
+    if a.replay:
+        a.replay = os.path.abspath(a.replay)
     scratch = tempfile.mkdtemp(prefix="oasv_%s_" % pid)
     os.chdir(scratch)
     try:
